@@ -324,8 +324,8 @@ func blocking(c *common.Ctx) error {
 	rounds := c.Pick(20, 200)
 	for i := 0; i < rounds; i++ {
 		r := c.Rng.Fork()
-		excl := r.Bool()      // waiter wants exclusive?
-		holdExcl := r.Bool()  // holder holds exclusive (else shared)
+		excl := r.Bool()       // waiter wants exclusive?
+		holdExcl := r.Bool()   // holder holds exclusive (else shared)
 		cancel := r.Chance(30) // end by cancel rather than release
 		if !excl && !holdExcl {
 			holdExcl = true // shared vs shared does not block
